@@ -75,7 +75,8 @@ Init ==
 LearnBegin ==
   /\ pc = "idle"
   /\ flags' = AllOn(P)
-  /\ epoch' = 1 /\ bi' = 1 /\ pc' = "batch"
+  \* an epoch budget of zero is a legal call: the flags are switched on and straight off again, nothing else happens
+  /\ IF P.e >= 1 THEN epoch' = 1 /\ bi' = 1 /\ pc' = "batch" ELSE epoch' = 0 /\ bi' = 0 /\ pc' = "end"
   /\ trainLoss' = <<>> /\ valLoss' = <<>> /\ valAcc' = <<>> /\ elog' = <<>>
   /\ UNCHANGED <<P, started, finished, red, accG, accL, w, saved, caller, vpend, vseen>>
 
@@ -236,7 +237,7 @@ StopHeldAt(e) == P.hasval /\ e > P.tol /\ e <= Len(valLoss) /\ Increasing(SubSeq
 HistoriesOK ==
   pc = "done" =>
     LET ran == Len(trainLoss) IN
-    /\ ran >= 1 /\ ran <= P.e
+    /\ (P.e >= 1 => ran >= 1) /\ ran <= P.e
     /\ Len(valLoss) = (IF P.hasval THEN ran ELSE 0)
     /\ Len(valAcc) = Len(valLoss)
     /\ ran < P.e => StopHeldAt(ran)                 \* stops early only if the condition holds ...
